@@ -155,7 +155,8 @@ Print Assumptions C01_ttl_and_expire_tables.
 (* ---- the implementation as built vs the reference *)
 
 (* Outside the class known_dev (GETSET of a string with a TTL; GETRANGE of a non-empty string
-   with two negative indices in the wrong order) the two dialects are the same function. *)
+   with two negative indices in the wrong order; the SET NX+XX and EXPIRE/PEXPIRE flag sets that
+   only the parsers refuse and no client can send) the two dialects are the same function. *)
 Theorem C01_as_built_is_redis_outside_known_classes : forall s now c,
   known_dev s c = false -> exec AsBuilt s now c = exec Redis s now c.
 Proof. exact dialect_eq_outside_class_lemma. Qed.
